@@ -2235,10 +2235,10 @@ fn gen_c17(o: &mut Out, r: &mut Rng, tier: &str) {
             o.line(&format!("fx {} {}", t, hex(&v.to_be_bytes())));
         }
         if thorough {
-            // all 2^32 values: 16 ranges of 2^28, one checksum per 2^20-value block
-            for k in 0..16u64 {
+            // all 2^32 values: 64 ranges of 2^26 (fine enough to balance the parallel chunks), one checksum per 2^20-value block
+            for k in 0..64u64 {
                 o.case(&format!("sweep {} range {}", t, k));
-                o.line(&format!("sweep {} {} {} {}", t, k << 28, 1u64 << 28, 1u64 << 20));
+                o.line(&format!("sweep {} {} {} {}", t, k << 26, 1u64 << 26, 1u64 << 20));
             }
         } else {
             // 2^20 values: 16 random aligned blocks of 2^16, plus the blocks around the boundaries
